@@ -314,7 +314,23 @@ def judgeWith (crashIsBad : Bool) (check : List Event → (Aid → Bool) → (Ai
     | [] => (s, "bad-op")
 
 def judgeC03 : Suite := judgeWith false fun evs _ _ _ => c03 evs
-def judgeC04 : Suite := judgeWith true fun evs _ _ _ => (c04suspended evs).orElse fun _ => c04directive evs
+def judgeC04 : Suite := judgeWith true fun evs _ _ _ =>
+  ((c04suspended evs).orElse fun _ => c04directive evs).orElse fun _ => c04escalate evs
+/-- the fine-grained suite: C04's event clauses plus `stuck => [a b …]` (printed after `events`)
+judged by `c04stuck` -/
+def judgeC04fine : Suite where
+  σ := JS
+  init := {}
+  step s toks :=
+    match toks.head?, toks.dropWhile (· ≠ "=>") with
+    | some "stuck", _ :: out =>
+      match s.evs with
+      | none => (s, "ok")
+      | some evs =>
+        match c04stuck evs ((unbracket out).filterMap String.toNat?) with
+        | none => (s, "ok")
+        | some l => (s, "bad:" ++ l)
+    | _, _ => judgeC04.step s toks
 def judgeC05 : Suite := judgeWith false fun evs _ gone quiet =>
   (c05order evs).orElse fun _ => if quiet then (c05complete evs gone).orElse fun _ => c05requests evs gone else none
 def judgeC06 : Suite := judgeWith false fun evs alive gone quiet =>
